@@ -254,6 +254,26 @@ func c18(c *h.Ctx) {
 		}
 		c.Case(bucket+"/"+strings.SplitN(cx.model, ":", 2)[0], in, true)
 	}
+	// 3b. message parts passed as the caller's own slice with spare capacity, reused across calls and
+	// contexts (a logging helper that builds its arguments once): the library must not write into it, and
+	// every call must still emit its own line with the id of the context passed to THAT call.
+	{
+		parts := make([]interface{}, 2, 8)
+		parts[0], parts[1] = "hello", 42
+		for round := 0; round < 2; round++ {
+			for _, cx := range ctxs {
+				for _, level := range []string{"trace", "warn", "error"} {
+					for _, printf := range []bool{false, true} {
+						doLine(level, printf, cx, parts, "%v-%v", true, "line/reused-args")
+						ok := len(parts) == 2 && parts[0] == "hello" && parts[1] == 42
+						c.Hold(ok, "line.caller_slice_untouched", fmt.Sprintf("logger %s printf=%v %s parts=[hello 42] cap 8 (reused)", level, printf, cx.model),
+							fmt.Sprint(parts...), "hello 42")
+						parts[0], parts[1] = "hello", 42
+					}
+				}
+			}
+		}
+	}
 	// F20 regression (fixed finding): the documentation's own example, an object with Cid() = 100
 	{
 		c18log("trace", false, c18obj(100), []interface{}{"The log text."}, "")
